@@ -240,6 +240,14 @@ def handle (op : String) (args : List String) : Option String :=
     let t ← parseTypeStr t
     let e ← parseExpStr e
     pure (boolStr (wt t.base t.arrayDim t.mapDim e) ++ " " ++ boolStr (intsOk e))
+  | "jwt", [t, j] => do
+    -- JSON-side typing (hypothesis of convert_wt) and the well-typedness of the conversion
+    let t ← parseTypeStr t
+    let j ← parseJStr j
+    pure (boolStr (jWt t.base t.arrayDim t.mapDim j) ++ " " ++ boolStr (jIntsOk j) ++ " " ++
+      (match convert t j with
+        | some e => boolStr (wt t.base t.arrayDim t.mapDim e)
+        | none => "none"))
   | "bindok", [t, a] => do
     -- the hypotheses of binding_roundtrip on a real binding: `<wt | splitOperandOk> <intsOk>`
     let t ← parseTypeStr t
